@@ -234,7 +234,33 @@ func (d *protoDom) glueStep(st *sState, in ssa.Instruction) bool {
 			st.vals[x] = v
 			return true
 		}
+	case *ssa.BinOp:
+		// slice == nil / != nil: decided for freshly made slices, otherwise an unknown of the caller's argument
+		if x.Op == token.EQL || x.Op == token.NEQ {
+			a, b := e.get(st, x.X), e.get(st, x.Y)
+			if _, isNil := a.(sNil); isNil {
+				a, b = b, a
+			}
+			if sl, ok := a.(gSlice); ok {
+				if _, isNil := b.(sNil); isNil {
+					if h := d.gobj(st, sl.obj); h != nil && h.fresh {
+						st.vals[x] = sBool{x.Op == token.NEQ}
+					} else {
+						nm := "?"
+						if h != nil {
+							nm = h.name
+						}
+						st.vals[x] = pCond{raw: "isnil(" + nm + ")", neg: x.Op == token.NEQ}
+					}
+					return true
+				}
+			}
+		}
 	case *ssa.MakeInterface:
+		if rv, ok := e.get(st, x.X).(gRecv); ok {
+			st.vals[x] = rv // an interface holding the pointer to a modelled object: keep its identity
+			return true
+		}
 		if types.Identical(x.Type(), types.Universe.Lookup("error").Type()) {
 			st.vals[x] = pErr{true} // a concrete value boxed as an error is a non-nil error
 			return true
@@ -258,7 +284,11 @@ func (d *protoDom) fieldValue(st *sState, f gField, t types.Type) sVal {
 	var v sVal
 	switch u := t.Underlying().(type) {
 	case *types.Basic:
-		v = pInt{pParam(key)}
+		if strings.HasPrefix(f.recv, "local ") {
+			v = sInt{new(big.Int)} // a local struct starts zeroed
+		} else {
+			v = pInt{pParam(key)}
+		}
 	case *types.Slice:
 		esz := elemSize(u.Elem())
 		ln := pOp("len", pParam(key))
@@ -456,6 +486,12 @@ func (d *protoDom) glueCall(st *sState, call *ssa.Call, name string, args []sVal
 	// heavy helpers of the arm64 glue, summarised by the contracts their own analysis (C11 CALLSITE inside them) relies on
 	if cal != nil && isRepoFunc(cal) {
 		short := cal.Name()
+		// the summarised helpers are recognised by role (shape and call relation), so a renamed helper keeps its summary
+		for _, role := range []string{"sm4.(*sm4GcmAsm).cryptoBlocks", "sm4.(*sm4GcmAsm).gHashUpdate", "sm4.(*sm4GcmAsm).gHashFinish", "sm4.(*sm4GcmAsm).calculateFirstCounter", "sm4.expandKey", "sm4.cryptoBlock", "sm4.cryptoBlockX2"} {
+			if e.p.Func(role) == cal {
+				short = role[strings.LastIndex(role, ".")+1:]
+			}
+		}
 		switch short {
 		case "cryptoBlocks": // (g, roundKeys, out, in, preCounter)
 			out, ok1 := args[2].(gSlice)
